@@ -15,8 +15,11 @@
 -/
 import LbgVerif.Gen.Isect2
 import LbgVerif.Gen.Isect3
+import LbgVerif.Gen.Arc
 import LbgVerif.Lemmas.Isect2
 import LbgVerif.Lemmas.Isect3
+import LbgVerif.Lemmas.Sphere
+import LbgVerif.Lemmas.Arc
 import Mathlib.Tactic.Ring
 import Mathlib.Tactic.FieldSimp
 import Mathlib.Tactic.Linarith
@@ -716,49 +719,62 @@ example : intersect_plane_plane
 
 /-! ## 3D line / sphere
 
-  KNOWN DEFECT (not hidden): `intersect_line3d_sphere_*` CLAMP a root that falls outside the
-  operand's parameter range instead of rejecting it.  Hence every returned point is on the
-  segment/ray, but NOT always on the sphere: a segment that stops short of the sphere yields
-  its end point.  The full soundness statement
-
-    `∀ q ∈ intersect_line3d_sphere_s M l sp, OnSeg3 l q ∧ OnSphere sp q`
-
-  is FALSE (counterexample below, at ℚ).  What is true is proved:
-  * `_on_segment/_on_ray`: every returned point is on the operand, within range (unconditional);
-  * `_sound_partial`: every returned point is on the sphere OR is an end point of the operand;
-  * `_sound_of_crossings_inside`: if all crossings of the carrier line with the sphere are within
-    range, every returned point is on the sphere;
-  * `_complete`: every in-range crossing is returned.
+  `intersect_line3d_sphere_*` (after the library fix) solve the quadratic for the carrier line,
+  return nothing when both crossings lie beyond the same end of the operand, and otherwise
+  CLAMP an out-of-range crossing parameter to the nearest end of the range.  The routine thus
+  returns the boundary of (operand ∩ closed ball): soundness is stated in the "solid ball"
+  reading.  Proved, for the segment (`_s`) and the ray (`_r`):
+  * `_on_segment/_on_ray`: every returned point is on the operand, within range;
+  * `_in_ball`: every returned point lies in the closed ball `|q − c|² ≤ r²`;
+  * `_sound`: both of the above, and a returned point is ON the sphere unless it is an end point
+    of the operand produced by clamping;
+  * `_sound_of_crossings_inside`: if all crossings are within range, all points are on the sphere;
+  * `_complete`: every in-range crossing is returned;
+  * `_nil_iff` / `_nil_of_disjoint`: the result is `[]` exactly when the operand misses the
+    closed ball.
   The code does not guard against a zero direction (`v·v = 0` divides by zero in Python); the
-  sphere statements carry `v·v ≠ 0` explicitly.  The square-root law is assumed only for
-  non-negative arguments.
+  statements that need the quadratic carry `v·v ≠ 0` explicitly.  The square-root law is assumed
+  only for non-negative arguments (`√x·√x = x`; the sign of `√` is not needed).
 -/
 
-/-- Every point returned by `intersect_line3d_sphere_s` lies on the segment, parameter in
-`[0,1]` (unconditionally: out-of-range roots are clamped). -/
+/-- `q` lies in the closed ball `|q − c|² ≤ r²`. -/
+def InBall (sp : SphereS α) (q : V3 α) : Prop :=
+  distSq3 q sp.center ≤ sp.radius * sp.radius
+
+/-- (a) Every point returned by `intersect_line3d_sphere_s` lies on the segment, within its parameter
+range (unconditionally). -/
 theorem intersect_line3d_sphere_s_on_segment (M : MathOps α) (l : LR3 α) (sp : SphereS α)
     (q : V3 α) (h : q ∈ intersect_line3d_sphere_s M l sp) : OnSeg3 l q := by
   rw [Lemmas.intersect_line3d_sphere_s_eq] at h
   exact Lemmas.sphPts_on .seg M l sp q h
 
-/-- Partial soundness (segment × sphere).  FULL statement (false, see the counterexample):
-every returned point is on the sphere.  PROVED: with `v·v ≠ 0` and the square-root law, every
-returned point satisfies the sphere equation or is an end point of the segment (`t = 0` or
-`t = 1`) produced by clamping an out-of-range root. -/
-theorem intersect_line3d_sphere_s_sound_partial (M : MathOps α) (l : LR3 α) (sp : SphereS α)
+/-- (b) Every point returned by `intersect_line3d_sphere_s` lies in the closed ball: clamped end points
+lie between the two roots of the quadratic, where the quadratic is `≤ 0`. -/
+theorem intersect_line3d_sphere_s_in_ball (M : MathOps α) (l : LR3 α) (sp : SphereS α)
+    (q : V3 α) (hv : l.v.x * l.v.x + l.v.y * l.v.y + l.v.z * l.v.z ≠ 0)
+    (hsqrt : ∀ x, 0 ≤ x → M.sqrt x * M.sqrt x = x)
+    (h : q ∈ intersect_line3d_sphere_s M l sp) : InBall sp q := by
+  rw [Lemmas.intersect_line3d_sphere_s_eq] at h
+  exact Lemmas.sphPts_in_ball .seg M l sp q hv (hsqrt _) h
+
+/-- Soundness at full strength (segment × sphere, solid-ball reading): every returned point
+(a) lies on the segment within range, (b) lies in the closed ball, and (c) lies ON the sphere
+unless it is an end point of the segment produced by clamping an out-of-range crossing. -/
+theorem intersect_line3d_sphere_s_sound (M : MathOps α) (l : LR3 α) (sp : SphereS α)
     (q : V3 α) (hv : l.v.x * l.v.x + l.v.y * l.v.y + l.v.z * l.v.z ≠ 0)
     (hsqrt : ∀ x, 0 ≤ x → M.sqrt x * M.sqrt x = x)
     (h : q ∈ intersect_line3d_sphere_s M l sp) :
-    OnSphere sp q ∨ At3 l 0 q ∨ At3 l 1 q := by
+    OnSeg3 l q ∧ InBall sp q ∧ (OnSphere sp q ∨ At3 l 0 q ∨ At3 l 1 q) := by
+  refine ⟨intersect_line3d_sphere_s_on_segment M l sp q h,
+    intersect_line3d_sphere_s_in_ball M l sp q hv hsqrt h, ?_⟩
   rw [Lemmas.intersect_line3d_sphere_s_eq] at h
   rcases Lemmas.sphPts_sphere_or_end .seg M l sp q hv (hsqrt _) h with h' | h' | ⟨_, h'⟩
   · exact Or.inl h'
   · subst h'; exact Or.inr (Or.inl ⟨rfl, rfl, rfl⟩)
   · subst h'; exact Or.inr (Or.inr ⟨rfl, rfl, rfl⟩)
 
-/-- Soundness under the "unclamped roots inside the range" hypothesis (segment × sphere): if
-every crossing of the carrier line with the sphere has its parameter in `[0,1]`, every returned
-point satisfies the sphere equation `|q − c|² = r²`. -/
+/-- (c') If every crossing of the carrier line with the sphere has its parameter in range, no
+clamping happens and every returned point satisfies the sphere equation `|q − c|² = r²`. -/
 theorem intersect_line3d_sphere_s_sound_of_crossings_inside (M : MathOps α) (l : LR3 α)
     (sp : SphereS α) (q : V3 α)
     (hv : l.v.x * l.v.x + l.v.y * l.v.y + l.v.z * l.v.z ≠ 0)
@@ -769,8 +785,8 @@ theorem intersect_line3d_sphere_s_sound_of_crossings_inside (M : MathOps α) (l 
   exact Lemmas.sphPts_sphere_of_inside .seg M l sp q hv (hsqrt _)
     (fun t ht => hin t _ ⟨rfl, rfl, rfl⟩ ht) h
 
-/-- Completeness (segment × sphere): every point of the segment (parameter in `[0,1]`) that
-satisfies the sphere equation is returned. -/
+/-- (d) Completeness: every point of the segment (parameter in range) that satisfies the sphere
+equation is returned. -/
 theorem intersect_line3d_sphere_s_complete (M : MathOps α) (l : LR3 α) (sp : SphereS α)
     (q : V3 α) (hv : l.v.x * l.v.x + l.v.y * l.v.y + l.v.z * l.v.z ≠ 0)
     (hsqrt : ∀ x, 0 ≤ x → M.sqrt x * M.sqrt x = x)
@@ -781,28 +797,61 @@ theorem intersect_line3d_sphere_s_complete (M : MathOps α) (l : LR3 α) (sp : S
   subst hq
   exact Lemmas.sphPts_complete .seg M l sp hv (hsqrt _) t ⟨h0, h1⟩ hs
 
-/-- Every point returned by `intersect_line3d_sphere_r` lies on the ray, parameter `≥ 0`
-(unconditionally: negative roots are clamped to `0`). -/
+/-- (e) The result is empty exactly when no point of the segment lies in the closed ball. -/
+theorem intersect_line3d_sphere_s_nil_iff (M : MathOps α) (l : LR3 α) (sp : SphereS α)
+    (hv : l.v.x * l.v.x + l.v.y * l.v.y + l.v.z * l.v.z ≠ 0)
+    (hsqrt : ∀ x, 0 ≤ x → M.sqrt x * M.sqrt x = x) :
+    intersect_line3d_sphere_s M l sp = [] ↔ ∀ q, OnSeg3 l q → ¬ InBall sp q := by
+  rw [Lemmas.intersect_line3d_sphere_s_eq, Lemmas.sphPts_eq_nil_iff .seg M l sp hv (hsqrt _)]
+  constructor
+  · rintro h q ⟨t, h0, h1, hx, hy, hz⟩
+    have hq : q = Lemmas.at3 l t := V3.ext' hx hy hz
+    subst hq
+    exact h t ⟨h0, h1⟩
+  · intro h t ht
+    exact h _ ((Lemmas.Rng.On3_iff .seg l _).mpr ⟨t, ht, rfl⟩)
+
+/-- (e) If the segment does not meet the closed ball at all, nothing is returned. -/
+theorem intersect_line3d_sphere_s_nil_of_disjoint (M : MathOps α) (l : LR3 α) (sp : SphereS α)
+    (hv : l.v.x * l.v.x + l.v.y * l.v.y + l.v.z * l.v.z ≠ 0)
+    (hsqrt : ∀ x, 0 ≤ x → M.sqrt x * M.sqrt x = x)
+    (hmiss : ∀ q, OnSeg3 l q → ¬ InBall sp q) : intersect_line3d_sphere_s M l sp = [] :=
+  (intersect_line3d_sphere_s_nil_iff M l sp hv hsqrt).mpr hmiss
+
+/-- (a) Every point returned by `intersect_line3d_sphere_r` lies on the ray, within its parameter
+range (unconditionally). -/
 theorem intersect_line3d_sphere_r_on_ray (M : MathOps α) (l : LR3 α) (sp : SphereS α)
     (q : V3 α) (h : q ∈ intersect_line3d_sphere_r M l sp) : OnRay3 l q := by
   rw [Lemmas.intersect_line3d_sphere_r_eq] at h
   exact Lemmas.sphPts_on .ray M l sp q h
 
-/-- Partial soundness (ray × sphere).  FULL statement (false): every returned point is on the
-sphere.  PROVED: every returned point satisfies the sphere equation or is the ray origin
-(`t = 0`) produced by clamping a negative root. -/
-theorem intersect_line3d_sphere_r_sound_partial (M : MathOps α) (l : LR3 α) (sp : SphereS α)
+/-- (b) Every point returned by `intersect_line3d_sphere_r` lies in the closed ball: clamped end points
+lie between the two roots of the quadratic, where the quadratic is `≤ 0`. -/
+theorem intersect_line3d_sphere_r_in_ball (M : MathOps α) (l : LR3 α) (sp : SphereS α)
+    (q : V3 α) (hv : l.v.x * l.v.x + l.v.y * l.v.y + l.v.z * l.v.z ≠ 0)
+    (hsqrt : ∀ x, 0 ≤ x → M.sqrt x * M.sqrt x = x)
+    (h : q ∈ intersect_line3d_sphere_r M l sp) : InBall sp q := by
+  rw [Lemmas.intersect_line3d_sphere_r_eq] at h
+  exact Lemmas.sphPts_in_ball .ray M l sp q hv (hsqrt _) h
+
+/-- Soundness at full strength (ray × sphere, solid-ball reading): every returned point
+(a) lies on the ray within range, (b) lies in the closed ball, and (c) lies ON the sphere
+unless it is an end point of the ray produced by clamping an out-of-range crossing. -/
+theorem intersect_line3d_sphere_r_sound (M : MathOps α) (l : LR3 α) (sp : SphereS α)
     (q : V3 α) (hv : l.v.x * l.v.x + l.v.y * l.v.y + l.v.z * l.v.z ≠ 0)
     (hsqrt : ∀ x, 0 ≤ x → M.sqrt x * M.sqrt x = x)
     (h : q ∈ intersect_line3d_sphere_r M l sp) :
-    OnSphere sp q ∨ At3 l 0 q := by
+    OnRay3 l q ∧ InBall sp q ∧ (OnSphere sp q ∨ At3 l 0 q) := by
+  refine ⟨intersect_line3d_sphere_r_on_ray M l sp q h,
+    intersect_line3d_sphere_r_in_ball M l sp q hv hsqrt h, ?_⟩
   rw [Lemmas.intersect_line3d_sphere_r_eq] at h
   rcases Lemmas.sphPts_sphere_or_end .ray M l sp q hv (hsqrt _) h with h' | h' | ⟨hk, _⟩
   · exact Or.inl h'
   · subst h'; exact Or.inr ⟨rfl, rfl, rfl⟩
   · exact absurd hk (by decide)
 
-/-- Soundness under the "unclamped roots inside the range" hypothesis (ray × sphere). -/
+/-- (c') If every crossing of the carrier line with the sphere has its parameter in range, no
+clamping happens and every returned point satisfies the sphere equation `|q − c|² = r²`. -/
 theorem intersect_line3d_sphere_r_sound_of_crossings_inside (M : MathOps α) (l : LR3 α)
     (sp : SphereS α) (q : V3 α)
     (hv : l.v.x * l.v.x + l.v.y * l.v.y + l.v.z * l.v.z ≠ 0)
@@ -813,7 +862,8 @@ theorem intersect_line3d_sphere_r_sound_of_crossings_inside (M : MathOps α) (l 
   exact Lemmas.sphPts_sphere_of_inside .ray M l sp q hv (hsqrt _)
     (fun t ht => hin t _ ⟨rfl, rfl, rfl⟩ ht) h
 
-/-- Completeness (ray × sphere): every point of the ray on the sphere is returned. -/
+/-- (d) Completeness: every point of the ray (parameter in range) that satisfies the sphere
+equation is returned. -/
 theorem intersect_line3d_sphere_r_complete (M : MathOps α) (l : LR3 α) (sp : SphereS α)
     (q : V3 α) (hv : l.v.x * l.v.x + l.v.y * l.v.y + l.v.z * l.v.z ≠ 0)
     (hsqrt : ∀ x, 0 ≤ x → M.sqrt x * M.sqrt x = x)
@@ -824,26 +874,56 @@ theorem intersect_line3d_sphere_r_complete (M : MathOps α) (l : LR3 α) (sp : S
   subst hq
   exact Lemmas.sphPts_complete .ray M l sp hv (hsqrt _) t h0 hs
 
-/-- COUNTEREXAMPLE to full soundness (the known defect), at ℚ: the segment `(0,0,0)→(1,0,0)`
-stops short of the unit sphere centred at `(5,0,0)`; the discriminant is `4`, `√4 = 2` is exact
-(the stub `sqrt` below is correct at the only argument used), both roots (`6` and `4`) are
-clamped to `1`, and the routine returns the end point `(1,0,0)`, which is at squared distance
-`16 ≠ 1` from the centre. -/
+/-- (e) The result is empty exactly when no point of the ray lies in the closed ball. -/
+theorem intersect_line3d_sphere_r_nil_iff (M : MathOps α) (l : LR3 α) (sp : SphereS α)
+    (hv : l.v.x * l.v.x + l.v.y * l.v.y + l.v.z * l.v.z ≠ 0)
+    (hsqrt : ∀ x, 0 ≤ x → M.sqrt x * M.sqrt x = x) :
+    intersect_line3d_sphere_r M l sp = [] ↔ ∀ q, OnRay3 l q → ¬ InBall sp q := by
+  rw [Lemmas.intersect_line3d_sphere_r_eq, Lemmas.sphPts_eq_nil_iff .ray M l sp hv (hsqrt _)]
+  constructor
+  · rintro h q ⟨t, h0, hx, hy, hz⟩
+    have hq : q = Lemmas.at3 l t := V3.ext' hx hy hz
+    subst hq
+    exact h t h0
+  · intro h t ht
+    exact h _ ((Lemmas.Rng.On3_iff .ray l _).mpr ⟨t, ht, rfl⟩)
+
+/-- (e) If the ray does not meet the closed ball at all, nothing is returned. -/
+theorem intersect_line3d_sphere_r_nil_of_disjoint (M : MathOps α) (l : LR3 α) (sp : SphereS α)
+    (hv : l.v.x * l.v.x + l.v.y * l.v.y + l.v.z * l.v.z ≠ 0)
+    (hsqrt : ∀ x, 0 ≤ x → M.sqrt x * M.sqrt x = x)
+    (hmiss : ∀ q, OnRay3 l q → ¬ InBall sp q) : intersect_line3d_sphere_r M l sp = [] :=
+  (intersect_line3d_sphere_r_nil_iff M l sp hv hsqrt).mpr hmiss
+
+/-- The former defect is fixed (ℚ): the segment `(0,0,0)→(1,0,0)` stops short of the unit sphere
+centred at `(5,0,0)`; both crossings (`u = 6`, `u = 4`; `√4 = 2` exact) lie beyond the end, and
+the routine now returns `[]`. -/
 example :
     intersect_line3d_sphere_s
         (⟨fun x => if x = 4 then 2 else 0, id, id, id, id, id, fun _ _ => 0, 0, id⟩ : MathOps ℚ)
-        ⟨⟨0, 0, 0⟩, ⟨1, 0, 0⟩⟩ ⟨⟨5, 0, 0⟩, 1⟩ = [⟨1, 0, 0⟩]
-      ∧ ¬ OnSphere (⟨⟨5, 0, 0⟩, 1⟩ : SphereS ℚ) ⟨1, 0, 0⟩ := by
-  refine ⟨by decide +kernel, ?_⟩
-  unfold OnSphere distSq3; norm_num
+        ⟨⟨0, 0, 0⟩, ⟨1, 0, 0⟩⟩ ⟨⟨5, 0, 0⟩, 1⟩ = [] := by
+  decide +kernel
 
-/-- Non-vacuity of the positive statements: the segment `(0,0,0)→(10,0,0)` crosses the same
-sphere at `(6,0,0)` and `(4,0,0)` (discriminant `400`, `√400 = 20`). -/
+/-- Non-vacuity: the segment `(0,0,0)→(10,0,0)` crosses the same sphere at `(6,0,0)` and `(4,0,0)`
+(discriminant `400`, `√400 = 20`). -/
 example :
     intersect_line3d_sphere_s
         (⟨fun x => if x = 400 then 20 else 0, id, id, id, id, id, fun _ _ => 0, 0, id⟩ : MathOps ℚ)
         ⟨⟨0, 0, 0⟩, ⟨10, 0, 0⟩⟩ ⟨⟨5, 0, 0⟩, 1⟩ = [⟨6, 0, 0⟩, ⟨4, 0, 0⟩] := by
   decide +kernel
+
+/-- Clamping still happens for a segment that ENDS inside the ball: `(0,0,0)→(5,0,0)` enters the
+sphere at `(4,0,0)` (`u = 4/5`) and the far crossing (`u = 6/5`) is clamped to the end point
+`(5,0,0)`, which is inside the ball but not on the sphere — hence the solid-ball reading. -/
+example :
+    intersect_line3d_sphere_s
+        (⟨fun x => if x = 100 then 10 else 0, id, id, id, id, id, fun _ _ => 0, 0, id⟩ : MathOps ℚ)
+        ⟨⟨0, 0, 0⟩, ⟨5, 0, 0⟩⟩ ⟨⟨5, 0, 0⟩, 1⟩ = [⟨5, 0, 0⟩, ⟨4, 0, 0⟩]
+      ∧ InBall (⟨⟨5, 0, 0⟩, 1⟩ : SphereS ℚ) ⟨5, 0, 0⟩
+      ∧ ¬ OnSphere (⟨⟨5, 0, 0⟩, 1⟩ : SphereS ℚ) ⟨5, 0, 0⟩ := by
+  refine ⟨by decide +kernel, ?_, ?_⟩
+  · unfold InBall distSq3; norm_num
+  · unfold OnSphere distSq3; norm_num
 
 /-! ## Plane / sphere -/
 
@@ -1020,6 +1100,189 @@ example :
           id, id, id, id, id, fun _ _ => 0, 0, id⟩ : MathOps ℚ)
         ⟨⟨0, 0, 1⟩, ⟨0, 0, 0⟩, 0, ⟨1, 0, 0⟩, ⟨0, 1, 0⟩⟩ ⟨⟨0, 0, 3⟩, 5⟩
       = some (Sum.inl (⟨0, 0, 0⟩, ⟨0, 0, 1⟩, 4)) := by
+  decide +kernel
+
+/-! ## 2D line / arc
+
+  `intersect_line2d_arc2d_*` and `intersect_line2d_infinite_arc2d_*` solve the line/circle
+  quadratic and keep the crossings that pass `Arc2D._pt_in`, the library's own angular filter.
+  Trigonometry stays abstract (`M.acos`, `M.sqrt`, `M.pi` are uninterpreted); the angle of a
+  point is `arc2_a_from_pt M a q = Vector2D(1,0).angle_counterclockwise(q − c)`.
+
+  KNOWN DEFECT (not hidden): in `intersect_line2d_arc2d` the TANGENT case (`u1 == u2`) returns the
+  tangent point whenever it passes the angular filter, WITHOUT testing the segment/ray parameter
+  range.  So the full statement "every returned point lies on the operand within range" is false
+  (counter-example below); the proved `_sound_partial` theorems give the range clause under the
+  non-tangency guard `LineCircleDisc l a ≠ 0`.  The `_infinite_` variants have no range clause
+  and are sound at full strength.
+-/
+
+/-- Squared Euclidean distance in 2D. -/
+def distSq2 (a b : V2 α) : α := (a.x - b.x) * (a.x - b.x) + (a.y - b.y) * (a.y - b.y)
+
+/-- `q` lies on the carrier circle of the arc: `|q − c|² = r²`. -/
+def OnCircle2 (a : Arc2S α) (q : V2 α) : Prop := distSq2 q a.c = a.r * a.r
+
+/-- Discriminant `b² − 4ac` of the line/circle quadratic (zero iff the line is tangent). -/
+def LineCircleDisc (l : LR2 α) (a : Arc2S α) : α :=
+  2 * (l.v.x * (l.p.x - a.c.x) + l.v.y * (l.p.y - a.c.y))
+      * (2 * (l.v.x * (l.p.x - a.c.x) + l.v.y * (l.p.y - a.c.y)))
+    - 4 * (l.v.x * l.v.x + l.v.y * l.v.y)
+      * (a.c.x * a.c.x + a.c.y * a.c.y + (l.p.x * l.p.x + l.p.y * l.p.y)
+          - 2 * (a.c.x * l.p.x + a.c.y * l.p.y) - a.r * a.r)
+
+/-- Unfolding of the angular filter `Arc2D._pt_in`: a full circle accepts everything; otherwise
+the point's angle must lie in the open counter-clockwise span from `a1` to `a2`
+(`a1 < ang < a2` for a normal arc, `ang > a1 ∨ ang < a2` for an inverted arc `a2 < a1`). -/
+theorem arc2_pt_in_iff (M : MathOps α) (a : Arc2S α) (q : V2 α) :
+    arc2_pt_in M a q = true ↔
+      arc2_is_circle M a = true ∨
+      (arc2_is_inverted a = false ∧ a.a1 < arc2_a_from_pt M a q ∧ arc2_a_from_pt M a q < a.a2) ∨
+      (arc2_is_inverted a = true ∧ (a.a1 < arc2_a_from_pt M a q ∨ arc2_a_from_pt M a q < a.a2)) := by
+  rw [Lemmas.arc2_pt_in_eq, decide_eq_true_eq, Lemmas.arc2_a_from_pt_eq]
+  unfold arc2_is_circle arc2_is_inverted Lemmas.arcSpan Lemmas.isCirc Lemmas.spanNC
+  simp only [decide_eq_true_eq, decide_eq_false_iff_not]
+
+/-- A full circle accepts every point. -/
+theorem arc2_pt_in_of_circle (M : MathOps α) (a : Arc2S α) (q : V2 α)
+    (h : arc2_is_circle M a = true) : arc2_pt_in M a q = true :=
+  (arc2_pt_in_iff M a q).mpr (Or.inl h)
+
+/-- Partial soundness (segment × arc).  FULL statement (false because of the tangent-case defect,
+see the counter-example): every returned point lies on the segment within range, on the circle, and
+passes the filter.  PROVED: every returned point lies on the carrier circle, on the carrier line,
+passes the arc's angular filter, and — unless the line is tangent to the circle
+(`LineCircleDisc l a = 0`) — lies on the segment within its parameter range. -/
+theorem intersect_line2d_arc2d_s_sound_partial (M : MathOps α) (l : LR2 α) (a : Arc2S α) (q : V2 α)
+    (hv : l.v.x * l.v.x + l.v.y * l.v.y ≠ 0)
+    (hsqrt : ∀ x, 0 ≤ x → M.sqrt x * M.sqrt x = x)
+    (h : q ∈ intersect_line2d_arc2d_s M l a) :
+    OnCircle2 a q ∧ OnLine2 l q ∧ arc2_pt_in M a q = true ∧
+      (LineCircleDisc l a ≠ 0 → OnSeg2 l q) := by
+  rw [Lemmas.intersect_line2d_arc2d_s_eq] at h
+  exact Lemmas.arcPts_sound .seg M l a q hv (hsqrt _) h
+
+/-- Completeness (segment × arc): every point of the segment (parameter in range) that lies on the
+circle and passes the angular filter is returned (tangent or not). -/
+theorem intersect_line2d_arc2d_s_complete (M : MathOps α) (l : LR2 α) (a : Arc2S α) (q : V2 α)
+    (hv : l.v.x * l.v.x + l.v.y * l.v.y ≠ 0)
+    (hsqrt : ∀ x, 0 ≤ x → M.sqrt x * M.sqrt x = x)
+    (hl : OnSeg2 l q) (hc : OnCircle2 a q) (hf : arc2_pt_in M a q = true) :
+    q ∈ intersect_line2d_arc2d_s M l a := by
+  rw [Lemmas.intersect_line2d_arc2d_s_eq]
+  obtain ⟨t, h0, h1, hx, hy⟩ := hl
+  have hq : q = Lemmas.at2 l t := V2.ext' hx hy
+  subst hq
+  exact Lemmas.arcPts_complete .seg M l a hv (hsqrt _) t ⟨h0, h1⟩ hc hf
+
+/-- Partial soundness (ray × arc).  FULL statement (false because of the tangent-case defect,
+see the counter-example): every returned point lies on the ray within range, on the circle, and
+passes the filter.  PROVED: every returned point lies on the carrier circle, on the carrier line,
+passes the arc's angular filter, and — unless the line is tangent to the circle
+(`LineCircleDisc l a = 0`) — lies on the ray within its parameter range. -/
+theorem intersect_line2d_arc2d_r_sound_partial (M : MathOps α) (l : LR2 α) (a : Arc2S α) (q : V2 α)
+    (hv : l.v.x * l.v.x + l.v.y * l.v.y ≠ 0)
+    (hsqrt : ∀ x, 0 ≤ x → M.sqrt x * M.sqrt x = x)
+    (h : q ∈ intersect_line2d_arc2d_r M l a) :
+    OnCircle2 a q ∧ OnLine2 l q ∧ arc2_pt_in M a q = true ∧
+      (LineCircleDisc l a ≠ 0 → OnRay2 l q) := by
+  rw [Lemmas.intersect_line2d_arc2d_r_eq] at h
+  exact Lemmas.arcPts_sound .ray M l a q hv (hsqrt _) h
+
+/-- Completeness (ray × arc): every point of the ray (parameter in range) that lies on the
+circle and passes the angular filter is returned (tangent or not). -/
+theorem intersect_line2d_arc2d_r_complete (M : MathOps α) (l : LR2 α) (a : Arc2S α) (q : V2 α)
+    (hv : l.v.x * l.v.x + l.v.y * l.v.y ≠ 0)
+    (hsqrt : ∀ x, 0 ≤ x → M.sqrt x * M.sqrt x = x)
+    (hl : OnRay2 l q) (hc : OnCircle2 a q) (hf : arc2_pt_in M a q = true) :
+    q ∈ intersect_line2d_arc2d_r M l a := by
+  rw [Lemmas.intersect_line2d_arc2d_r_eq]
+  obtain ⟨t, h0, hx, hy⟩ := hl
+  have hq : q = Lemmas.at2 l t := V2.ext' hx hy
+  subst hq
+  exact Lemmas.arcPts_complete .ray M l a hv (hsqrt _) t h0 hc hf
+
+/-- Soundness (carrier line of a segment × arc): every returned point lies on the carrier circle
+(`|q − c|² = r²`, from the quadratic and the square-root law), on the carrier line of the operand,
+and passes the arc's angular filter. -/
+theorem intersect_line2d_infinite_arc2d_s_sound (M : MathOps α) (l : LR2 α) (a : Arc2S α) (q : V2 α)
+    (hv : l.v.x * l.v.x + l.v.y * l.v.y ≠ 0)
+    (hsqrt : ∀ x, 0 ≤ x → M.sqrt x * M.sqrt x = x)
+    (h : q ∈ intersect_line2d_infinite_arc2d_s M l a) :
+    OnCircle2 a q ∧ OnLine2 l q ∧ arc2_pt_in M a q = true := by
+  rw [Lemmas.intersect_line2d_infinite_arc2d_s_eq] at h
+  obtain ⟨h1, h2, h3, _⟩ := Lemmas.arcPts_sound .line M l a q hv (hsqrt _) h
+  exact ⟨h1, h2, h3⟩
+
+/-- Completeness (carrier line of a segment × arc): every point of the carrier line that lies on
+the circle and passes the angular filter is returned. -/
+theorem intersect_line2d_infinite_arc2d_s_complete (M : MathOps α) (l : LR2 α) (a : Arc2S α) (q : V2 α)
+    (hv : l.v.x * l.v.x + l.v.y * l.v.y ≠ 0)
+    (hsqrt : ∀ x, 0 ≤ x → M.sqrt x * M.sqrt x = x)
+    (hl : OnLine2 l q) (hc : OnCircle2 a q) (hf : arc2_pt_in M a q = true) :
+    q ∈ intersect_line2d_infinite_arc2d_s M l a := by
+  rw [Lemmas.intersect_line2d_infinite_arc2d_s_eq]
+  obtain ⟨t, hx, hy⟩ := hl
+  have hq : q = Lemmas.at2 l t := V2.ext' hx hy
+  subst hq
+  exact Lemmas.arcPts_complete .line M l a hv (hsqrt _) t trivial hc hf
+
+/-- Soundness (carrier line of a ray × arc): every returned point lies on the carrier circle
+(`|q − c|² = r²`, from the quadratic and the square-root law), on the carrier line of the operand,
+and passes the arc's angular filter. -/
+theorem intersect_line2d_infinite_arc2d_r_sound (M : MathOps α) (l : LR2 α) (a : Arc2S α) (q : V2 α)
+    (hv : l.v.x * l.v.x + l.v.y * l.v.y ≠ 0)
+    (hsqrt : ∀ x, 0 ≤ x → M.sqrt x * M.sqrt x = x)
+    (h : q ∈ intersect_line2d_infinite_arc2d_r M l a) :
+    OnCircle2 a q ∧ OnLine2 l q ∧ arc2_pt_in M a q = true := by
+  rw [Lemmas.intersect_line2d_infinite_arc2d_r_eq] at h
+  obtain ⟨h1, h2, h3, _⟩ := Lemmas.arcPts_sound .line M l a q hv (hsqrt _) h
+  exact ⟨h1, h2, h3⟩
+
+/-- Completeness (carrier line of a ray × arc): every point of the carrier line that lies on
+the circle and passes the angular filter is returned. -/
+theorem intersect_line2d_infinite_arc2d_r_complete (M : MathOps α) (l : LR2 α) (a : Arc2S α) (q : V2 α)
+    (hv : l.v.x * l.v.x + l.v.y * l.v.y ≠ 0)
+    (hsqrt : ∀ x, 0 ≤ x → M.sqrt x * M.sqrt x = x)
+    (hl : OnLine2 l q) (hc : OnCircle2 a q) (hf : arc2_pt_in M a q = true) :
+    q ∈ intersect_line2d_infinite_arc2d_r M l a := by
+  rw [Lemmas.intersect_line2d_infinite_arc2d_r_eq]
+  obtain ⟨t, hx, hy⟩ := hl
+  have hq : q = Lemmas.at2 l t := V2.ext' hx hy
+  subst hq
+  exact Lemmas.arcPts_complete .line M l a hv (hsqrt _) t trivial hc hf
+
+/-- COUNTER-EXAMPLE to the full soundness statement (tangent-case defect), at ℚ: the segment
+`(0,1)→(1,1)` lies on the line `y = 1`, which is tangent to the unit circle centred at `(5,0)` at
+`(5,1)` (parameter `u = 5`, outside `[0,1]`; discriminant `0`, `√0 = 0` exact).  The routine returns
+the tangent point although it is not on the segment.  (`M.pi := 3`, full circle `a1 = 0`,
+`a2 = 2·M.pi`, so no trigonometry is evaluated.) -/
+example :
+    intersect_line2d_arc2d_s
+        (⟨fun _ => 0, id, id, id, id, id, fun _ _ => 0, 3, id⟩ : MathOps ℚ)
+        ⟨⟨0, 1⟩, ⟨1, 0⟩⟩ ⟨⟨5, 0⟩, 1, 0, 6, 1, 0, 1, 0⟩ = [⟨5, 1⟩]
+      ∧ ¬ OnSeg2 (⟨⟨0, 1⟩, ⟨1, 0⟩⟩ : LR2 ℚ) ⟨5, 1⟩ := by
+  refine ⟨by decide +kernel, ?_⟩
+  rintro ⟨t, _, h1, hx, _⟩
+  simp only [zero_add, mul_one] at hx
+  linarith
+
+/-- Non-vacuity: the segment `(0,0)→(10,0)` crosses the full unit circle centred at `(5,0)` at
+`(6,0)` and `(4,0)` (discriminant `400`, `√400 = 20`). -/
+example :
+    intersect_line2d_arc2d_s
+        (⟨fun x => if x = 400 then 20 else 0, id, id, id, id, id, fun _ _ => 0, 3, id⟩ : MathOps ℚ)
+        ⟨⟨0, 0⟩, ⟨10, 0⟩⟩ ⟨⟨5, 0⟩, 1, 0, 6, 1, 0, 1, 0⟩ = [⟨6, 0⟩, ⟨4, 0⟩] := by
+  decide +kernel
+
+/-- Non-vacuity of the angular filter for a proper arc (stub `acos ≡ 3/2`, `√ ≡ 1`): with
+`a1 = 1 < 3/2 < a2 = 2` the point `(0,1)` above the centre passes; for the inverted arc
+`a1 = 2`, `a2 = 1` it does not. -/
+example :
+    arc2_pt_in (⟨fun _ => 1, id, id, id, fun _ => 3 / 2, id, fun _ _ => 0, 3, id⟩ : MathOps ℚ)
+        ⟨⟨0, 0⟩, 1, 1, 2, 0, 0, 0, 0⟩ ⟨0, 1⟩ = true
+      ∧ arc2_pt_in (⟨fun _ => 1, id, id, id, fun _ => 3 / 2, id, fun _ _ => 0, 3, id⟩ : MathOps ℚ)
+        ⟨⟨0, 0⟩, 1, 2, 1, 0, 0, 0, 0⟩ ⟨0, 1⟩ = false := by
   decide +kernel
 
 end Lbg.Props.C11
